@@ -28,6 +28,7 @@ RULE = ("case = (peer, transfer kind, payload length, step k, disturbance); ever
         "delivered before the request (sits in the queue), between request and response, each followed by an undisturbed "
         "upload and download. Stale frames that would be a legal response for the current step are not generated "
         "(indistinguishable by protocol). Signature = (peer, kind, length class, step class, disturbance); all non-trivial.")
+RULE += (" " + 'Widened later: lost requests, every loss also with MAX_RETRIES = 2, block uploads from a server without CRC and size announcement, follow-ups as unsized stream / block upload, garbage collection after every disturbed call (no frame after the call ended).')
 ASSUMPTIONS = ["time-outs are caused only by injected losses (inline delivery); RESPONSE_TIMEOUT 3 ms",
                "a wrong toggle / multiplexer on a *download* response does not change what the server stored: success with the right store is accepted",
                "inside a block sub-block the client may abort with 0x05040000/3/4"]
